@@ -320,7 +320,28 @@ func groups(w *mon.W) {
 		}
 		groupsL := []*grp{{g: &e.RouterGroup, isEngine: true}}
 		nops := 4 + r.Intn(14)
-		for k := 0; k < nops; k++ {
+		// NoRoute / NoMethod are installed at a seeded point of the program (before any Use,
+		// in the middle, at the end) or not at all (hertz's default 404/405 answer)
+		noRouteAt, noMethodAt := r.Intn(nops+3)-1, r.Intn(nops+3)-1
+		haveNoRoute, haveNoMethod := false, false
+		install := func(k int) {
+			if k == noRouteAt {
+				e.NoRoute(h("noroute"))
+				haveNoRoute = true
+				ops = append(ops, "NoRoute")
+			}
+			if k == noMethodAt {
+				e.NoMethod(h("nomethod"))
+				haveNoMethod = true
+				ops = append(ops, "NoMethod")
+			}
+		}
+		defer func() {}()
+		for k := 0; k <= nops; k++ {
+			install(k)
+			if k == nops {
+				break
+			}
 			G := groupsL[r.Intn(len(groupsL))]
 			switch r.Intn(5) {
 			case 0, 1: // Use (one at a time, or several at once)
@@ -338,7 +359,11 @@ func groups(w *mon.W) {
 					hs = append(hs, mw(nm))
 					nms = append(nms, nm)
 				}
-				G.g.Use(hs...)
+				if G.isEngine {
+					e.Use(hs...) // Engine.Use (not the embedded RouterGroup's) keeps the 404/405 chains current
+				} else {
+					G.g.Use(hs...)
+				}
 				G.chain = append(G.chain, nms...)
 				if G.isEngine {
 					engineUses = append(engineUses, nms...)
@@ -382,8 +407,6 @@ func groups(w *mon.W) {
 		if len(routes) == 0 {
 			return
 		}
-		e.NoRoute(h("noroute"))
-		e.NoMethod(h("nomethod"))
 		c.Detail = func() interface{} { return map[string]interface{}{"registration": ops} }
 		serve := func(m, p string) []string {
 			trace = trace[:0]
@@ -401,6 +424,15 @@ func groups(w *mon.W) {
 			out = append(out, chain...)
 			for i := len(chain) - 2; i >= 0; i-- {
 				out = append(out, "/"+chain[i])
+			}
+			return out
+		}
+		// middlewares wrap whatever follows, also when no NoRoute/NoMethod handler is set
+		onionMW := func(mws, tail []string) []string {
+			out := append([]string{}, mws...)
+			out = append(out, tail...)
+			for i := len(mws) - 1; i >= 0; i-- {
+				out = append(out, "/"+mws[i])
 			}
 			return out
 		}
@@ -424,7 +456,11 @@ func groups(w *mon.W) {
 			}
 			if !clash {
 				got = serve(other, rt.path)
-				want = onion(append(append([]string{}, engineUses...), "nomethod"))
+				tail405 := []string{}
+				if haveNoMethod {
+					tail405 = []string{"nomethod"}
+				}
+				want = onionMW(engineUses, tail405)
 				if strings.Join(got, " ") != strings.Join(want, " ") {
 					c.Violate("nomethod-chain", "registration %v: %s %s (wrong method) ran %v, want %v", ops, other, rt.path, got, want)
 					return
@@ -432,7 +468,11 @@ func groups(w *mon.W) {
 			}
 		}
 		got := serve("GET", "/definitely/not/registered")
-		want := onion(append(append([]string{}, engineUses...), "noroute"))
+		tail404 := []string{}
+		if haveNoRoute {
+			tail404 = []string{"noroute"}
+		}
+		want := onionMW(engineUses, tail404)
 		if strings.Join(got, " ") != strings.Join(want, " ") {
 			c.Violate("noroute-chain", "registration %v: unmatched request ran %v, want %v", ops, got, want)
 			return
